@@ -1,9 +1,10 @@
-"""keep_seed.py <prop> <k> : confirm an agent-produced change in a fresh scratch worktree and store it under /verif/seeded/<prop>-<k>/.
+"""keep_seed.py <prop> <k> [srcdir] [dst_k] : confirm an agent-produced change in a fresh scratch worktree and store it under /verif/seeded/<prop>-<k>/.
 Confirms: demo exits 0 on the clean tree, non-zero with the patch; the BASELINE stable_pass tests all still pass with the patch.
 Then runs the property's check (and all others) on a scratch copy with the patch and records which fire."""
 import json,os,shutil,subprocess,sys,tempfile,time
 prop,k=sys.argv[1],sys.argv[2]
-src=f'/tmp/wt/{prop}/_out/change_{k}'
+src=sys.argv[3] if len(sys.argv)>3 else f'/tmp/wt/{prop}/_out/change_{k}'
+dk=sys.argv[4] if len(sys.argv)>4 else k
 assert os.path.exists(src+'/patch.diff'),src
 wt=tempfile.mkdtemp(prefix='confirm',dir='/tmp')
 os.rmdir(wt)
@@ -19,13 +20,13 @@ try:
     t=time.time()
     bl=sh(f'/venv/bin/python /verif/tools/baseline_cmp.py {wt}')
     suite_ok=bl.returncode==0
-    print(f'{prop}-{k}: demo clean rc={d0} mutant rc={d1}; suite with mutant: {bl.stdout.strip().splitlines()[0] if bl.stdout else bl.stderr[:200]} ({time.time()-t:.0f}s)')
+    print(f'{prop}-{dk}: demo clean rc={d0} mutant rc={d1}; suite with mutant: {bl.stdout.strip().splitlines()[0] if bl.stdout else bl.stderr[:200]} ({time.time()-t:.0f}s)')
     fired=sh(f'/venv/bin/python /verif/tools/seedcheck.py {src}/patch.diff').stdout.strip().splitlines()
     summary=fired[-1] if fired else ''
     print('   checks:',summary)
     ok=(d0==0 and d1!=0 and suite_ok)
     if ok:
-        dst=f'/verif/seeded/{prop}-{k}'
+        dst=f'/verif/seeded/{prop}-{dk}'
         os.makedirs(dst,exist_ok=True)
         for f in ('patch.diff','demo.py','notes.md'):
             if os.path.exists(src+'/'+f): shutil.copy(src+'/'+f,dst+'/'+f)
